@@ -26,7 +26,7 @@ PLAN = {"quick": {"shards": 16, "cases": 320, "timeout": 900}, "thorough": {"sha
 FLOORS = {"quick": {"distinct_nontrivial": 80, "queries": 450, "patterns_judged": 600, "name_at_several_depths": 100, "instance_below_threshold": 150,
                     "second_or_later_query_on_same_object": 250, "empty_results": 30, "traces_gt_127_events": 60,
                     "rank_switches_between_queries": 80, "queries_with_regex_metacharacters": 60},
-          "thorough": {"distinct_nontrivial": 1500, "queries": 9000, "patterns_judged": 16000, "name_at_several_depths": 2000,
+          "thorough": {"distinct_nontrivial": 1500, "queries": 9000, "patterns_judged": 10000, "name_at_several_depths": 2000,
                        "instance_below_threshold": 3000, "second_or_later_query_on_same_object": 5000, "empty_results": 600, "traces_gt_127_events": 1200,
                        "rank_switches_between_queries": 1500, "queries_with_regex_metacharacters": 1200}}
 
